@@ -3,17 +3,55 @@
 # mutants/ (my own) and seeded/ (written by independent sub-agents) is applied to a scratch copy
 # of the repository (never to /repo), the quick tier of the property's check is run against that
 # copy (VLAB_REPO), and the check must exit 1 with a VIOLATION line.  Finally the unchanged copy is
-# checked once per property touched and must exit 0.  Results: selftest_results.md.
-# Scratch copy and build output live under $SELFTEST_TMP (default /tmp/vlab-selftest) and are
-# removed at the end.
+# checked once per property and must exit 0.  Results: selftest_results.md.
+# Work is spread over $SELFTEST_LANES (default 4) lanes, each with its own scratch worktree and
+# build directory under $SELFTEST_TMP (default /tmp/vlab-selftest), all removed at the end.
 set -u
 cd /verif
 FILTER=${1:-}
 T=${SELFTEST_TMP:-/tmp/vlab-selftest}
-S=$T/repo
+LANES=${SELFTEST_LANES:-4}
 mkdir -p $T
-[ -d $S ] || git -C /repo worktree add -q --detach $S HEAD || exit 2
 OUT=/verif/selftest_results.md
+JOBS=$T/jobs.txt
+: > $JOBS
+for p in mutants/*.patch; do
+  n=$(basename $p .patch)
+  case "$n" in *"$FILTER"*) ;; *) continue;; esac
+  id=$(echo ${n%%-*} | tr c C)
+  echo "mutants/$n $(realpath $p) $id" >> $JOBS
+done
+for d in seeded/C*/; do
+  n=$(basename $d)
+  case "$n" in *"$FILTER"*) ;; *) continue;; esac
+  [ -f $d/patch.diff ] || continue
+  echo "seeded/$n $(realpath $d/patch.diff) ${n%%-*}" >> $JOBS
+done
+if [ -z "$FILTER" ]; then
+  for i in $(seq -w 1 20); do echo "unchanged - C$i" >> $JOBS; done
+fi
+lane() { # lane number
+  local L=$1 S=$T/repo-$1 k=0
+  [ -d $S ] || git -C /repo worktree add -q --detach $S HEAD || exit 2
+  : > $T/res-$L.txt
+  while read -r name patch chk; do
+    k=$((k+1))
+    [ $(( (k-1) % LANES )) -eq $((L-1)) ] || continue
+    ( cd $S && git checkout -q -- . && git clean -qfd )
+    if [ "$patch" != "-" ]; then
+      ( cd $S && git apply "$patch" ) || { echo "$name|$chk|patch does not apply|" >> $T/res-$L.txt; continue; }
+    fi
+    VLAB_REPO=$S VLAB_TARGET=$T/target-$L ./check $chk quick > $T/out-$L.txt 2>&1; rc=$?
+    ( cd $S && git checkout -q -- . && git clean -qfd )
+    kinds=$(grep -oE "kind=[^ ]+" $T/out-$L.txt | sort | uniq -c | sort -rn | head -3 | awk '{print $2}' | tr '\n' ' ')
+    echo "$name|$chk|$rc|$kinds" >> $T/res-$L.txt
+    echo "$name -> $chk rc=$rc $kinds"
+  done < $JOBS
+  git -C /repo worktree remove --force $S
+}
+for L in $(seq 1 $LANES); do lane $L & done
+wait
+fail=0
 {
   echo "# selftest: detection of deliberate property-breaking changes (quick tier)"
   echo
@@ -21,42 +59,15 @@ OUT=/verif/selftest_results.md
   echo
   echo "| change | check | exit | violation kinds (top 3) |"
   echo "|--------|-------|------|-------------------------|"
-} > $OUT.tmp
-fail=0
-run_one() { # name patch check
-  local name=$1 patch=$2 chk=$3
-  ( cd $S && git checkout -q -- . && git clean -qfd && git apply "$patch" ) || { echo "| $name | $chk | patch does not apply | |" >> $OUT.tmp; fail=1; return; }
-  VLAB_REPO=$S VLAB_TARGET=$T/target ./check $chk quick > $T/out.txt 2>&1; rc=$?
-  ( cd $S && git checkout -q -- . && git clean -qfd )
-  kinds=$(grep -oE "kind=[^ ]+" $T/out.txt | sort | uniq -c | sort -rn | head -3 | awk '{print $2}' | tr '\n' ' ')
-  echo "| $name | $chk | $rc | $kinds |" >> $OUT.tmp
-  echo "$name -> $chk rc=$rc $kinds"
-  [ $rc = 1 ] || fail=1
-}
-for p in mutants/*.patch; do
-  n=$(basename $p .patch)
-  case "$n" in *"$FILTER"*) ;; *) continue;; esac
-  id=$(echo ${n%%-*} | tr c C)
-  run_one "mutants/$n" "$(realpath $p)" $id
-done
-for d in seeded/C*/; do
-  n=$(basename $d)
-  case "$n" in *"$FILTER"*) ;; *) continue;; esac
-  [ -f $d/patch.diff ] || continue
-  run_one "seeded/$n" "$(realpath $d/patch.diff)" ${n%%-*}
-done
-if [ -z "$FILTER" ]; then
-  echo >> $OUT.tmp
-  echo "Unchanged copy (must exit 0):" >> $OUT.tmp
-  echo >> $OUT.tmp
-  for i in $(seq -w 1 20); do
-    VLAB_REPO=$S VLAB_TARGET=$T/target ./check C$i quick > $T/out.txt 2>&1; rc=$?
-    echo "- C$i quick: exit $rc" >> $OUT.tmp
-    echo "clean C$i rc=$rc"
-    [ $rc = 0 ] || fail=1
-  done
-fi
-mv $OUT.tmp $OUT
-git -C /repo worktree remove --force $S
+  cat $T/res-*.txt | grep -v "^unchanged" | sort | while IFS='|' read -r name chk rc kinds; do echo "| $name | $chk | $rc | $kinds |"; done
+  echo
+  echo "Unchanged copy (must exit 0):"
+  echo
+  cat $T/res-*.txt | grep "^unchanged" | sort -t'|' -k2 | while IFS='|' read -r name chk rc kinds; do echo "- $chk quick: exit $rc"; done
+} > $OUT
+if cat $T/res-*.txt | grep -v "^unchanged" | awk -F'|' '$3 != 1' | grep -q .; then fail=1; fi
+if cat $T/res-*.txt | grep "^unchanged" | awk -F'|' '$3 != 0' | grep -q .; then fail=1; fi
 rm -rf $T
+git -C /repo worktree prune
+rm -f /verif/selftest_results.md.tmp
 exit $fail
